@@ -8,6 +8,39 @@ from ..specs import lexer as SL
 from ..models import lexer as LX
 
 
+TOKEN_FORMS = {
+    "parse_identifier": {
+        "tokens": {"Token(keywords[val], pos)", "Token('IDENTIFIER', pos, val)"},
+        "text": {"val = self.pop()", "val += self.pop()"},
+        "guards": {"val in keywords"},
+    },
+}
+
+
+def valueless_token_frames(chk):
+    import ast
+    f = chk.repo.find_function("norminette/lexer/lexer.py:Lexer.parse_identifier")
+    spec = TOKEN_FORMS["parse_identifier"]
+    toks, text, guards, calls = set(), set(), set(), set()
+    for x in ast.walk(f.node):
+        if isinstance(x, ast.Call) and isinstance(x.func, ast.Name) and x.func.id == "Token":
+            toks.add(ast.unparse(x))
+        if isinstance(x, (ast.Assign, ast.AugAssign)) and "val" in {t.id for t in ast.walk(x) if isinstance(t, ast.Name) and isinstance(t.ctx, ast.Store)}:
+            text.add(ast.unparse(x))
+        if isinstance(x, ast.If):
+            for r in ast.walk(x):
+                if isinstance(r, ast.Return) and r.value is not None and "keywords" in ast.unparse(r.value):
+                    guards.add(ast.unparse(x.test))
+        if isinstance(x, ast.Call) and isinstance(x.func, ast.Name) and x.func.id not in ("Token",):
+            calls.add(x.func.id)
+    ok = toks == spec["tokens"] and text == spec["text"] and guards == spec["guards"] and not calls
+    chk.frame("frame.parse_identifier.keyword_token_only_for_the_exact_table_entry", ok,
+              {"tokens": sorted(toks), "consumed_text": sorted(text), "guards": sorted(guards), "other_calls": sorted(calls)},
+              what="parse_identifier no longer builds its tokens as Token(keywords[val], pos) under `val in keywords` / "
+                   f"Token('IDENTIFIER', pos, val) with val the popped characters: {sorted(toks)} {sorted(text)} {sorted(guards)} "
+                   f"{sorted(calls)} -- the text of a keyword token may differ from what was consumed")
+
+
 def run(tier, seed, replay):
     if replay:
         rp = json.load(open(replay))
@@ -31,6 +64,10 @@ def run(tier, seed, replay):
         dup = sorted({v for v in vals if vals.count(v) > 1})
         chk.finite(f"dictionary.{name}.injective", not dup, len(vals), {"duplicates": dup},
                    what=f"two lexemes share the token kind {dup}: the text of such a token cannot be recovered")
+    # ... and a token without value is only built from the table entry of the exact text that was
+    # consumed: frames on the three parsers that build such tokens (every Token(...) construction
+    # and every assignment to the consumed text in them is one of the committed forms)
+    valueless_token_frames(chk)
     allk = [v for n in ("keywords", "operators", "brackets") for v in tables[n].values()]
     dup = sorted({v for v in allk if allk.count(v) > 1})
     chk.finite("dictionary.kinds_disjoint_across_tables", not dup, len(allk), {"duplicates": dup},
